@@ -136,11 +136,14 @@ func (ch c14) runStreamF(c *core.Ctx, env *hs.Env, t c14table, stream []byte, cu
 		return obs, false
 	}
 	msgs, err := parseAll(out)
-	if err != nil || closed {
-		c.Violate("grammar", "reply not well-formed", fmt.Sprint(err, " closed=", closed), cs)
+	if err != nil {
+		c.Violate("grammar", "reply not well-formed", err.Error(), cs)
 		return obs, false
 	}
 	obs.Reply = pg.Types(msgs)
+	if closed {
+		obs.Reply += "<connection closed>"
+	}
 	obs.End = "none"
 	for _, e := range cl.C.Events() {
 		if e.Kind == "cb" && e.Name == "copyread" {
@@ -362,6 +365,10 @@ func (ch c14) truncated(c *core.Ctx, env *hs.Env, t c14table, stream []byte, row
 		c.Violate("end", "stream ending on a row boundary not accepted", fmt.Sprintf("%s: reader end=%s %q", what, obs.End, obs.ErrTxt), cs)
 		return false
 	}
+	if obs.End == "error" && obs.Reply != "TGEZZ" {
+		c.Violate("abort-reply", "failed binary COPY is not answered with exactly one ErrorResponse and one ReadyForQuery (truncated stream)", fmt.Sprintf("%s: transcript %q, want TGEZZ; reader error %q", what, obs.Reply, obs.ErrTxt), cs)
+		return false
+	}
 	if !boundary && obs.End != "error" {
 		c.Violate("corruption-accepted", "truncated row or trailer reported as a clean end of stream", fmt.Sprintf("%s: reader end=%s, the cut is %d byte(s) past the last row boundary", what, obs.End, cut-lastBoundary(rowEnds, cut)), cs)
 		return false
@@ -400,6 +407,10 @@ func (ch c14) corrupt(c *core.Ctx, env *hs.Env, t c14table, stream []byte, rowEn
 			return append(append(append([]byte{}, s[:rowEnds[ri]]...), 0xff, 0xff, 0xff, 0xff), s[rowEnds[ri]:]...)
 		}), "error"},
 		{"field count 300", mut(func(s []byte) []byte { binary.BigEndian.PutUint16(s[rowStart:], 300); return s }), "error"},
+		{"field count 0x8000", mut(func(s []byte) []byte { binary.BigEndian.PutUint16(s[rowStart:], 0x8000); return s }), "error"},
+		{"field count 0xFFFE", mut(func(s []byte) []byte { binary.BigEndian.PutUint16(s[rowStart:], 0xfffe); return s }), "error"},
+		{"field count with the high bit set", mut(func(s []byte) []byte { binary.BigEndian.PutUint16(s[rowStart:], nc|0x8000); return s }), "error"},
+		{"field count 0x7FFF", mut(func(s []byte) []byte { binary.BigEndian.PutUint16(s[rowStart:], 0x7fff); return s }), "error"},
 		{"trailer mid-stream", mut(func(s []byte) []byte { binary.BigEndian.PutUint16(s[rowStart:], 0xffff); return s }), ""},
 		{"stream ends mid-row", append([]byte(nil), stream[:rowStart+2+rng.Intn(rowEnds[ri]-rowStart-2+1)]...), ""},
 		{"first field length -2", mut(func(s []byte) []byte { binary.BigEndian.PutUint32(s[rowStart+2:], 0xfffffffe); return s }), "error"},
@@ -454,6 +465,10 @@ func (ch c14) corrupt(c *core.Ctx, env *hs.Env, t c14table, stream []byte, rowEn
 		}
 		if len(obs.Rows) != ri {
 			c.Violate("row-count", "rows before the corruption lost ("+k.name+")", fmt.Sprintf("%d rows returned, %d intact rows precede the corruption; reader end=%s %q", len(obs.Rows), ri, obs.End, obs.ErrTxt), cs)
+			return
+		}
+		if obs.End == "error" && obs.Reply != "TGEZZ" {
+			c.Violate("abort-reply", "failed binary COPY is not answered with exactly one ErrorResponse and one ReadyForQuery ("+k.name+")", fmt.Sprintf("transcript %q, want TGEZZ (cycle + the Z of the trailing Sync); reader error %q", obs.Reply, obs.ErrTxt), cs)
 			return
 		}
 		if k.wantEnd == "error" && obs.End != "error" {
